@@ -66,6 +66,11 @@ def run(repo, rep):
              'analysis as C05.G4)', 4)
     from .c05 import check_timer
     check_timer(repo, pm, rep, rule='C13.K8')
+    rep.rule('C13.K9', 'every wait for the peer is bounded by ARTIM: each cell that enters Sta2 or Sta13 leaves the timer running (and it '
+             'runs in no other state), on every path of its action -- a branch that answers and goes to Sta13 without starting the timer '
+             'waits for the peer\'s close for ever (same analysis as C05.G5a)', 100)
+    from .c05 import check_invariants
+    check_invariants(repo, model, rep, only_timer_rule='C13.K9')
 
     decode_set = pdu_decode_raise_set(repo)
     # K1
